@@ -76,6 +76,10 @@ class FileProxy:
             self._inj.die(self._inj.counter - 1)
         return self._f.write(data)
 
+    def flush(self):
+        self._inj.hit("flush", self._path)
+        return self._f.flush()
+
     def close(self):
         if not self._f.closed:
             self._inj.hit("close", self._path)
